@@ -79,8 +79,7 @@ def main(pid, argv):
                 ck.count("size:" + ("<1k" if len(wire) < 1024 else "<64k" if len(wire) < 65536 else ">=64k"))
             if bad:
                 nf += 1
-                if nf <= 3:
-                    ck.fail("wire-" + mode, l[:3000], bad, impl=il[:300], model=ml[:300])
+                ck.fail("wire-" + mode, l[:3000], bad, impl=il[:300], model=ml[:300])
             elif il != ml:
                 ck.tie_broken("%s bytes differ from the model" % mode, l[:600], il[:300], ml[:300])
     # ---- (b) receivers behind a re-segmenting proxy ----
@@ -108,8 +107,7 @@ def main(pid, argv):
         if il.split(" released=")[0] != ml:
             # the model is segmentation-independent: a difference means messages were not recovered identically on both sides
             nf += 1
-            if nf <= 3:
-                ck.fail("wire-proxy", l[:3000], "behind a re-segmenting proxy client and service did not recover the messages that were sent",
+            ck.fail("wire-proxy", l[:3000], "behind a re-segmenting proxy client and service did not recover the messages that were sent",
                         impl=il[:400], model=ml[:400])
     ck.extra["failing_inputs_total"] = nf
     ck.sample(dict(case=replies[0][:200]))
